@@ -216,15 +216,18 @@ func (o *obs) coq() string {
 	for _, p := range o.Black {
 		black = append(black, fmt.Sprint(p))
 	}
-	fmt.Fprintf(&b, "(mkObs %d %d %s %s %s %s %s %s %s)", o.View, o.VHeight, peers(o.Pool), hx.CoqList(infos), kvs(o.Stakes),
-		hx.CoqList(pens), kvs(o.Bal), hx.CoqList(black), kvs(o.MaxAuth))
+	fmt.Fprintf(&b, "(mkObs %d %d %s %s %s %s %s %s %s %s)", o.View, o.VHeight, peers(o.Pool), hx.CoqList(infos), kvs(o.Stakes),
+		hx.CoqList(pens), kvs(o.Bal), hx.CoqList(black), kvs(o.MaxAuth), peers(o.Prev))
 	return b.String()
 }
 
 // diff returns the records of `post` that differ from `pre` (records that disappeared are
 // listed with their default value) and the peers that left the pool.
-func diff(pre, post *obs) (d *obs, del []int) {
+func diff(pre, post *obs) (d *obs, del []int, prevChanged bool) {
 	d = &obs{View: post.View, VHeight: post.VHeight, Black: post.Black}
+	if fmt.Sprint(pre.Prev) != fmt.Sprint(post.Prev) {
+		d.Prev, prevChanged = post.Prev, true
+	}
 	prePool := map[int]peerObs{}
 	for _, p := range pre.Pool {
 		prePool[p.Peer] = p
